@@ -67,6 +67,9 @@ if res.get("confirmed"):
             subprocess.run(["git", "-C", "/repo", "worktree", "remove", "--force", swt], capture_output=True)
         else:
             subprocess.run(["git", "-C", "/repo", "checkout", "--", "."], check=True)
+# the checks regenerate lean/MpgsModel/Generated/Kernels.lean from the tree they ran against: put the unchanged tree's version back
+subprocess.run(["/venv/bin/python", os.path.join(VERIF, "harness", "translate.py")], env={k: v for k, v in os.environ.items() if k != "VERIF_REPO"},
+               capture_output=True)
 meta.update({"confirmation": res, "checks_against_it": checks,
              "ran": "tools/eval_seed.py: scratch worktree (apply, pytest, demo with/without), then git -C /repo apply, ./check <prop> --tier quick, git -C /repo checkout -- ."})
 json.dump(meta, open(os.path.join(dst, "meta.json"), "w"), indent=1)
